@@ -144,6 +144,19 @@ def rewrite(text, fmt, rnd):
     return "\n".join("\n".join(b) for b in out) + "\n"
 
 
+def reduce_text(text, rnd):
+    """the file with one to three of its data lines (or one whole block) left out: the omitted entries keep their defaults"""
+    blocks = split_blocks(text)
+    if rnd.random() < 0.3 and len(blocks) > 2:
+        del blocks[rnd.randrange(len(blocks))]
+    else:
+        for _ in range(rnd.randrange(1, 4)):
+            b = rnd.choice(blocks)
+            if len(b) > 1:
+                del b[rnd.randrange(1, len(b))]
+    return "\n".join("\n".join(b) for b in blocks) + "\n"
+
+
 def equal_pred(name, got, exp):
     if got is None or exp is None:
         return got is exp
@@ -192,7 +205,7 @@ def run(chk):
         defaults = cli.api_dump(dump, fmt, blank, params=True)["P"]
         jobs = []
         for idx, text in enumerate(texts):
-            variants = [("original", text)] + [("rewrite", rewrite(text, fmt, rnd)) for _ in range(nrew)]
+            variants = [("original", text)] + [("rewrite", rewrite(text, fmt, rnd)) for _ in range(nrew)] + [("reduced", reduce_text(text, rnd)) for _ in range(3)]
             jobs.append((idx, text, variants))
 
         def do_file(job):
@@ -202,6 +215,12 @@ def run(chk):
                 p = os.path.join(d, "v_%d_%d.in" % (idx, vi))
                 open(p, "w").write(vt)
                 api = cli.api_dump(dump, fmt, p, params=True)
+                if kind == "reduced":
+                    # the same reader object has read the complete file before: what the reduced file leaves out must come from the defaults, not from that file
+                    p0 = os.path.join(d, "v_%d_%d_first.in" % (idx, vi))
+                    open(p0, "w").write(text)
+                    api["after_other_file"] = cli.api_dump(dump, fmt, p, params=True, preload=p0)
+                    os.remove(p0)
                 runs = []
                 for un in (0, 1):
                     t2 = cli.config_block(0, 2, 1, 0, 0, un, 1) + vt
@@ -236,12 +255,24 @@ def run(chk):
                                 g = complex(api["P"].get("ckm_re(%d,%d)" % (i, j), float("nan")), api["P"].get("ckm_im(%d,%d)" % (i, j), float("nan")))
                                 if not abs(g - V[i][j]) <= 1e-14:
                                     bad.append(("ckm(%d,%d)" % (i, j), str(g), str(V[i][j])))
+                if "after_other_file" in api:
+                    a2 = api["after_other_file"]
+                    diff = [k for k in set(api["P"]) | set(a2["P"]) if not equal_pred("", a2["P"].get(k), api["P"].get(k))] + (["<acceptance>"] if ("params" in api["E"]) != ("params" in a2["E"]) else [])
+                    chk.add_cell("%s|reader-object-reuse|second file read by the same reader" % fmt, 1, len(diff))
+                    if diff:
+                        chk.add_fail("C13:reader-object-reuse:%s" % fmt, "parameters filled from a file depend on a file the same reader object read before: %s" % sorted(diff)[:6],
+                                     dict(format=fmt, file=vt, first_file=res[0][1], differing=sorted(diff)[:20]))
                 chk.add_cell("%s|reader-model|%s" % (fmt, kind), 1, len(bad))
                 if bad:
                     chk.add_fail("C13:reader-model:%s:%s" % (fmt, bad[0][0].split("(")[0]), "parameter %s filled as %r, reference model of the reader predicts %r" % bad[0],
                                  dict(format=fmt, input_text=vt, mismatches=[list(map(str, b)) for b in bad[:10]]))
                 # (b) layout invariance of the program's result
-                if kind != "original":
+                if kind == "reduced":
+                    # another set of assignments: no invariance demanded; recorded only (a silently non-finite result for an incomplete file belongs to C16)
+                    for un in (0, 1):
+                        if runs[un]["exit"] == 0 and re.search(r"nan|inf", runs[un]["stdout"]):
+                            chk.add_count("reduced file: exit 0 with a non-finite result (%s)" % fmt)
+                elif kind != "original":
                     for un in (0, 1):
                         a, b = base_runs[un], runs[un]
                         same = a["exit"] == b["exit"] and a["stdout"] == b["stdout"] and not b["signal"] and not b["timeout"]
